@@ -109,8 +109,11 @@ def numbered_twins(ctx, repo, scope=("otlLib/", "ttLib/tables/otTables.py"), rul
                     if not (ma and mb and ma.group(1) == mb.group(1) and ma.group(2) == "1" and mb.group(2) == "2"):
                         continue
                     ra, rb = norm(a.value), norm(b.value)
-                    if "1" not in ra and "2" not in rb:
+                    # the number must occur in an identifier or a string literal of the right-hand side (Value1, "ClassDef1"), not in arithmetic
+                    if not re.search(r"[A-Za-z_]\w*1\b|1['\"]", ra):
                         continue
+                    if any(isinstance(x, ast.Call) and last_attr(x) in ("pop", "next", "read", "readline") for x in ast.walk(a.value)):
+                        continue  # stateful producers legitimately repeat
                     n += 1
                     expected = re.sub(r"1(?!\d)", "2", ra)
                     ok = ra != rb
@@ -156,6 +159,11 @@ def key_fields(ctx, repo, scope=("varLib/instancer/", "subset/", "varLib/feature
                     var = bases.pop()
                     cls = typed.get(var)
                     if cls is None or isinstance(t.ctx, ast.Store):
+                        continue
+                    # identity use only: appended/added to a collection, used as a dict key or subscript, or compared
+                    p = parent(t)
+                    ident = (isinstance(p, ast.Call) and last_attr(p) in ("append", "add") and t in p.args) or (isinstance(p, ast.Dict) and any(k is t for k in p.keys)) or (isinstance(p, ast.DictComp) and p.key is t) or (isinstance(p, ast.Subscript) and p.slice is t) or isinstance(p, ast.Compare) or (isinstance(p, (ast.Set, ast.SetComp)))
+                    if not ident:
                         continue
                     got = {e.attr for e in t.elts}
                     fmts = sc.formats_of(cls)
